@@ -20,7 +20,7 @@ EXPLANATION = (
     "R03.2 fixed-width extractor: memcpy length + terminator ≤ destination under the caller's dominating guard on the decoded length; "
     "R03.3 each fixed-size stack array handed to Message::encode(char**): the encoder chain has no capacity parameter; R03.4 loop "
     "progress of MessageBase::decode's field loop and of both loops of decode_group; R03.5 extract_trailer reads `size-7` without a "
-    "size guard; fast_atoi with a non-NUL terminator on string data. NOT decided: other UB, generated code, exception types.")
+    "size guard; fast_atoi with a non-NUL terminator on string data. R03.6 Message::factory refuses the MsgType texts \"header\" and \"trailer\" (table entries that build a MessageBase) before creating the object. NOT decided: other UB, generated code, exception types.")
 
 MB = 'FIX8::MessageBase::'
 
@@ -165,4 +165,26 @@ def run(ctx):
                   'fast_atoi(…, terminator %r) is preceded by a search proving the terminator occurs after the start' % chr(term),
                   'fast_atoi scans string data for terminator 0x%02x with no proof that it occurs: a message ending inside the MsgSeqNum value is '
                   'read past its end' % term)
+    # ---------------- R03.6 the message table also holds the two pseudo messages "header" and "trailer" (F8MetaCntx builds every message's header and
+    # trailer from them); their factories return a MessageBase, not a Message, so a MsgType text naming one of them must be refused before the
+    # object is used as a Message
+    fac = prog.fn1('FIX8::Message::factory', sig='const FIX8::f8String &')
+    ctx.saw(fac)
+    fcfg = fac.cfg
+    mk = [n for n in fac.all_nodes() if n.is_call and n.k != 'CXXConstructExpr' and fcfg.has_vertex(n) and
+          any(x.strip(casts=True).k == 'MemberExpr' and x.strip(casts=True).decl['n'] == '_do' for x in ([n.obj] if n.obj is not None else []) + n.children[:1])]
+    ctx.need(len(mk) == 1, 'factory: message creation call (_create._do) not found')
+    mkv = fcfg.vertex_of(mk[0])
+    for pseudo in ('header', 'trailer'):
+        guarded = False
+        for (b, a, pol) in q.branches(fac, lambda a: any(x.k == 'StringLiteral' and x.r.get('s') == pseudo for x in a.walk())):
+            # one polarity of a test mentioning the literal must be unable to reach the creation call
+            for way in (True, False):
+                tg = q.edge_targets(fcfg, b, way)
+                if tg and not any(mkv in (fcfg.reach_from(t) | {t}) for t in tg):
+                    guarded = True
+        ctx.check(guarded, 'R03.6', 'FIX8::Message::factory#pseudo-msgtype.' + pseudo, mk[0].loc,
+                  'a MsgType text "%s" is refused before the table entry\'s object is used as a Message' % pseudo,
+                  'the message table entry "%s" builds a MessageBase (it exists so that the context can create %ss); factory looks the wire MsgType up in the same '
+                  'table and uses whatever the entry creates as a Message: `35=%s` crashes the decoder' % (pseudo, pseudo, pseudo))
     ctx.floor('R03.4', 3)
